@@ -229,7 +229,7 @@ def nested_specs():
     return out
 
 
-W2 = ["w", "w n", "n w", "w+", "w n?", "n? w", "t", "n"]
+W2 = ["w", "w n", "n w", "w+", "w n?", "n? w", "t", "n", "w?", "w* n"]
 
 
 def nested_specs2():
@@ -238,7 +238,7 @@ def nested_specs2():
     out = []
     for e1, e2 in itertools.product(W2, W2):
         for dexpr in ("(p1 | p2)+", "(p2 | p1)+", "p1 p2*"):
-            out.append({"doc": {"content": dexpr}, "p1": {"content": e1}, "p2": {"content": e2}, "w": {"content": "t+"},
+            out.append({"doc": {"content": dexpr}, "p1": {"content": e1}, "p2": {"content": e2}, "w": {"content": "t+", "attrs": {"k": {"default": None}}},
                         "n": {}, "t": {}, "text": {}})
     return out
 
